@@ -35,6 +35,18 @@ Streams
   memoreplay / memostack  the real memo decorators on a function producing 0..n-1, read by successive
              consumers that take k_i elements vs Model.Determinism.Stored.reads; random decorator
              stacks: does a memo of the stack remember a one-shot iterator vs stackReplayable
+  budget     direct oracle: programs generated from the limits in the sources (gen/c16_budget.py:
+             per_function_execution_limit, total_function_execution_limit, the 300-inferences-per-context
+             cap, MAX_PARAM_SEARCHES) in which ONE query uses n-1 / n / n+1 units of a per-query budget -
+             through every public method that can (infer, help, complete, goto, get_references,
+             get_signatures, search) - directly followed on the same Script by a question that needs one
+             more unit, asked through every public query method (get_signatures, complete incl. its
+             signatures callback, infer, goto, help, get_references, search, complete_search; get_names
+             and get_context as cheap in-between queries); every answer must equal the answer of a fresh
+             Script. After every query the real InferenceState is looked at: were the three bookkeeping
+             objects re-created by this query (object identity), how many executions were refused, how
+             far the counters are from the limits (bucket of the evidence). Runs in worker processes
+             while the in-process streams run; Scripts live in an empty project.
   fault      an exception is injected at the k-th inference step of a query; afterwards all
              switches must have their defaults and the recursion stacks must be empty
 
@@ -73,6 +85,12 @@ MANIFEST = dict(
          'the same set (goto_set_invariant); after any sequence of queries with any outcomes the switches '
          'have their defaults and every query starts with fresh recursion bookkeeping '
          '(query_boundary_inv_partial; witness: inferred_element_counts is not reset, reproduced on jedi); '
+         'every public query method opens with the reset or reaches one through self (public_queries_reset, over the '
+         'method table the translator extracts), so for ANY history - also one that used up every budget - the '
+         'limit_reached decisions of a query are those of the first query of a fresh Script '
+         '(every_query_starts_with_fresh_budget, public_queries_have_fresh_budget over the limits of recursion.py; '
+         'kernel-checked witness budget_leaks_without_reset: without the reset in get_signatures the execution it needs '
+         'is refused after an infer that executed the function per_function_execution_limit times); '
          'this includes dynamic_params_depth = 0 and an empty statement stack for any outcome of '
          'dynamic_params._avoid_recursions (allowed, blocked by the recursion guard, exception) because the '
          'translator finds `+= 1` inside `if allowed:` right before the try whose finally has `-= 1` '
@@ -1630,6 +1648,10 @@ def run(ctx):
         'calling another generator function is not seen statically - the scan of the real memo after every query of '
         'the session streams (memo_one_shot) is what covers it; undecorated ad-hoc caches (dict attributes) are not '
         'in the table',
+        'execution budget: the model speaks about the decisions of push_execution given the trace of executions a query '
+        'makes; which executions a query makes depends on the memo (a warm memo saves executions), which is not '
+        'modelled - stream budget compares real answers, and the two ways this shows on the unchanged jedi are the '
+        'known findings C16-single-query-over-budget-memoised / C16-same-named-completion-representative',
         'flow_analysis_enabled / is_analysis blocks are inline try/finally statements (no callable primitive): '
         'checked by fault injection on real queries (stream fault), not by the machine correspondence',
     ]
